@@ -88,7 +88,7 @@ def run(res, tier):
                        message='%s clears _myScheduledTimeValid of another node without being the unlink routine' % f.q)
                 continue
             rs = [c for c in P.calls(f, r'::ReschedulePulseChild$') if len(c.args()) >= 2 and A.strip_casts(c.args()[0])['k'] == 'CXXThisExpr' and c.args()[1].get('v') == needs
-                  and c.receiver() is not None and this_field(c.receiver(), '_parent')]
+                  and c.receiver() is not None and (this_field(c.receiver(), '_parent') or this_field(G.local_init(f, c.receiver()), '_parent'))]     # `_parent`, or a const local copy of it
             ok, path = P.must_follow(f, w, rs, escapes=P.escape_edges(f)) if rs else (False, None)
             res.ob('RE-ASK', f.where(w), '`_myScheduledTimeValid = false` in %s is followed by _parent->ReschedulePulseChild(this, NEEDSRECALC)' % f.q.split('::')[-1], ok, function=f.q,
                    how='reschedule request at line %s on every path with a parent' % (rs[0].get('l') if rs else '?'), key='RE-ASK|%s|reschedule' % f.q,
@@ -133,11 +133,19 @@ def run(res, tier):
     for f in pf:
         for (w, b) in writes_of(f, ('_aggregatePulseTime',)):
             aw.append((f, w))
-    outside = [(f, w) for (f, w) in aw if not (f.q.endswith('::GetPulseTimeAux') or f.q.endswith('(ctor)'))]
+    from msa import ip as IP_ag
+    gpa = [f for f in pf if f.q.endswith('::GetPulseTimeAux')]
+    ag_scope = set(h_.id for f0 in gpa for h_ in IP_ag.scope(fx, f0, r'^muscle::PulseNode::', single_caller=True))
+    outside = [(f, w) for (f, w) in aw if not (f.q.endswith('::GetPulseTimeAux') or f.q.endswith('(ctor)') or f.id in ag_scope)]
     res.ob('AGGREGATE', 'util/PulseNode.cpp', '_aggregatePulseTime has a single writer (GetPulseTimeAux)', not outside and bool(aw), function=PN + '::_aggregatePulseTime',
            how='%d write(s), all in GetPulseTimeAux' % len(aw), key='AGGREGATE|%s|writer' % PN,
            message='_aggregatePulseTime is also written in %s: the sorted child list it keys is no longer maintained' % (outside[0][0].q if outside else '?'))
     f = fx.fn1(PN + '::GetPulseTimeAux')
+    f_top = f
+    # the tail that recomputes the aggregate may have been split off into a private member that gets the caller's minimum by reference (msa/ip.py): it is judged there
+    for (g, w) in aw:
+        if g.id in ag_scope and g is not f_top:
+            f = g
     ok = False
     for (g, w) in aw:
         if g is f:
@@ -149,7 +157,8 @@ def run(res, tier):
                 ok = own and kid
     res.ob('AGGREGATE', f.where(), '_aggregatePulseTime = muscleMin(_myScheduledTime, GetFirstScheduledChildTime())', ok, function=f.q, key='AGGREGATE|%s|min' % f.q,
            message='the aggregate pulse time is no longer the minimum of the node\'s own time and its earliest scheduled child: the root reports a wake-up time later than some node requested')
-    minp = f.params[1]['d']
+    # the caller's running minimum: the `uint64 &` parameter
+    minp = next((p_['d'] for p_ in f.params if f.ptype(p_).replace(' ', '').endswith('&') and 'int' in f.ptype(p_)), f.params[-1]['d'])
     low = [n for n in f.walk() if n['k'] == 'BinaryOperator' and n.get('op') == '=' and A.strip_casts(n['ch'][0]).get('d') == minp and this_field(n['ch'][1], '_aggregatePulseTime')]
     okm = False
     for n in low:
